@@ -1,6 +1,184 @@
+"""C19 thorough tier: agreement on a unisolvent lattice => agreement for ALL real inputs, given measured degree bounds.
+
+For one output the model is a rational function N_m/D_m and the reference N_r/D_r. The difference vanishes identically
+iff the polynomial P = N_m D_r - N_r D_m is zero. P lies in the tensor-product space  Pi_Dq(R^8) (x) Pi_Do(R^r)
+(total degree <= Dq in the 8 quaternion components, <= Do in the r remaining variables the output depends on). The
+principal lattice {x in N^n : sum x <= D} is unisolvent for Pi_D(R^n), products of unisolvent sets are unisolvent for
+the tensor product, and unisolvence is translation invariant (we shift every coordinate by +1 so that no quaternion
+is zero and |q|^2 never vanishes). So: model(x) == reference(x) (exact rationals) at every lattice point  =>  P == 0.
+The degree bounds are measured on the model's own expression (sympy.fraction / Poly.total_degree of numerator and
+denominator); the reference's are known by construction. The verdict comes only from the enumeration.
+"""
+from __future__ import annotations
+
+import itertools
+from fractions import Fraction as F
+
+GROUPS = {
+    # output group: (reference degrees (num_q, den_q, num_o, den_o))
+    "a": (4, 4, 1, 0),
+    "v": (4, 4, 2, 0),
+    "p": (4, 4, 3, 0),
+    "rates": (4, 0, 1, 0),
+    "ori": (1, 0, 2, 0),
+}
+
+
+def lattice(n, D):
+    """all x in N^n with sum(x) <= D"""
+    def rec(k, left):
+        if k == 0:
+            yield ()
+            return
+        for v in range(left + 1):
+            for rest in rec(k - 1, left - v):
+                yield (v,) + rest
+    return rec(n, D)
+
+
+_MEASURED = None
+
+
+def measure():
+    """per output: free variables and total degrees of numerator/denominator in quaternion and other variables"""
+    global _MEASURED
+    if _MEASURED is not None:
+        return _MEASURED
+    import sympy
+    from formak.reference_models import strapdown_imu as m
+    from fv.props import c19
+    qnames = set(c19.NAMES["ori"] + c19.NAMES["cori"])
+    out = {}
+    for k, v in m.state_model.items():
+        e = sympy.nsimplify(v, rational=True)
+        num, den = sympy.fraction(sympy.together(e))
+        syms = sorted(e.free_symbols, key=lambda s: s.name)
+        qs = [s for s in syms if s.name in qnames]
+        os_ = [s for s in syms if s.name not in qnames]
+
+        def deg(expr, gens):
+            if not gens or not expr.free_symbols & set(gens):
+                return 0
+            return sympy.Poly(expr, *gens).total_degree()
+
+        out[k.name] = {"q": [s.name for s in qs], "o": [s.name for s in os_],
+                       "nq": deg(num, qs), "dq": deg(den, qs), "no": deg(num, os_), "do": deg(den, os_)}
+    _MEASURED = out
+    return out
+
+
+def group_of(name):
+    from fv.props import c19
+    for g, names in c19.NAMES.items():
+        if name in names and g in GROUPS:
+            return g
+    raise KeyError(name)
+
+
+def plan():
+    """[(output name, Dq, Do, q vars, o vars, #points)]"""
+    from math import comb
+    from fv.props import c19
+    meas = measure()
+    rows = []
+    allq = c19.NAMES["ori"] + c19.NAMES["cori"]
+    for name, mm in meas.items():
+        rnq, rdq, rno, rdo = GROUPS[group_of(name)]
+        Dq = max(mm["nq"] + rdq, rnq + mm["dq"])
+        Do = max(mm["no"] + rdo, rno + mm["do"])
+        qv = [q for q in allq if q in mm["q"]] or []
+        # the reference may depend on quaternion components the (mutated) model dropped: always span all 8 for rotated outputs
+        if group_of(name) in ("a", "v", "p", "rates"):
+            qv = allq
+        else:
+            qv = c19.NAMES["ori"]
+        ov = sorted(set(mm["o"]) | set(ref_other_vars(name)))
+        rows.append((name, Dq, Do, qv, ov, comb(len(qv) + Dq, Dq) * comb(len(ov) + Do, Do)))
+    return rows
+
+
+def ref_other_vars(name):
+    from fv.props import c19
+    g = group_of(name)
+    i = c19.NAMES[g].index(name)
+    fb = c19.NAMES["f"] + c19.NAMES["b"]
+    if g == "a":
+        return fb + (["g"] if i == 2 else [])
+    if g == "v":
+        return fb + (["g"] if i == 2 else []) + ["dt", c19.NAMES["v"][i]]
+    if g == "p":
+        return fb + (["g"] if i == 2 else []) + ["dt", c19.NAMES["v"][i], c19.NAMES["p"][i]]
+    if g == "rates":
+        return c19.NAMES["w"]
+    return c19.NAMES["w"] + ["dt"]
+
+
 def cases(tier, seed):
-    return iter(())
+    from math import comb
+    for name, Dq, Do, qv, ov, npts in plan():
+        # split the q-lattice by a prefix of its coordinates into independent work units of bounded size
+        nopt = comb(len(ov) + Do, Do)
+        L = 1
+        while L < len(qv) - 1 and comb(len(qv) - L + Dq, Dq) * nopt > 200000:
+            L += 1
+        for prefix in lattice(L, Dq):
+            yield {"kind": "lattice", "output": name, "Dq": Dq, "Do": Do, "prefix": list(prefix), "qvars": qv, "ovars": ov, "points": npts}
 
 
 def eval_case(case):
-    raise NotImplementedError
+    from fv.props import c19
+    ex = c19.exact_model()
+    syms = ex["__syms__"]
+    fn = ex[case["output"]]
+    name = case["output"]
+    qv, ov, Dq, Do = case["qvars"], case["ovars"], case["Dq"], case["Do"]
+    g = group_of(name)
+    gi = c19.NAMES[g].index(name)
+    opts = [tuple(x + 1 for x in y) for y in lattice(len(ov), Do)]
+    n = 0
+    fails = []
+    prefix = tuple(case["prefix"])
+    env = {s: F(0) for s in syms}
+    for rest in lattice(len(qv) - len(prefix), Dq - sum(prefix)):
+        qpt = tuple(x + 1 for x in prefix + rest)
+        # quaternion components not spanned by this output keep a fixed non-zero value
+        for s in c19.NAMES["ori"] + c19.NAMES["cori"]:
+            env[s] = F(1)
+        for s, v in zip(qv, qpt):
+            env[s] = F(v)
+        ori = tuple(env[s] for s in c19.NAMES["ori"])
+        cori = tuple(env[s] for s in c19.NAMES["cori"])
+        # quaternion part of the reference, once per quaternion lattice point
+        q = c19.qmul(ori, cori)
+        n2 = sum(x * x for x in q)
+        qc = c19.qconj(q)
+        basis_rot = [c19.qmul(c19.qmul(q, (0,) + e), qc)[1:] for e in ((1, 0, 0), (0, 1, 0), (0, 0, 1))]  # columns of |q|^2 R(q)
+        for opt in opts:
+            for s, v in zip(ov, opt):
+                env[s] = F(v)
+            if g in ("a", "v", "p"):
+                sf = [env[a] - env[b] for a, b in zip(c19.NAMES["f"], c19.NAMES["b"])]
+                acc = sum(basis_rot[j][gi] * sf[j] for j in range(3)) / n2 - (env["g"] if gi == 2 else 0)
+                dt = env["dt"]
+                if g == "a":
+                    ref = acc
+                elif g == "v":
+                    ref = env[c19.NAMES["v"][gi]] + acc * dt
+                else:
+                    ref = env[c19.NAMES["p"][gi]] + env[c19.NAMES["v"][gi]] * dt + acc * dt * dt / 2
+            elif g == "rates":
+                w = [env[s] for s in c19.NAMES["w"]]
+                ref = sum(basis_rot[j][gi] * w[j] for j in range(3))
+            else:
+                w = tuple(env[s] for s in c19.NAMES["w"])
+                ref = ori[gi] + F(1, 2) * c19.qmul(ori, (0,) + w)[gi] * env["dt"]
+            got = fn(*[env[s] for s in syms])
+            n += 1
+            if got != ref:
+                fails.append({"key": f"kinematics-lattice:{name}", "what": f"state_model[{name}] = {got}, kinematics give {ref} at lattice point "
+                              f"{ {s: str(env[s]) for s in qv + ov} }"})
+                return {"n": n, "fails": fails}
+    return {"n": n, "fails": fails, "sigs": [], "distinct_count": n, "nontrivial": False,
+            "counters": {"lattice_points": n}, "outcomes": ["lattice-evaluated", f"lattice:{g}"],
+            "sample": {"kind": "lattice", "output": name, "Dq": Dq, "Do": Do, "q_vars": len(qv), "other_vars": ov,
+                       "points_in_this_unit": n, "points_for_output": case["points"], "measured_degrees": measure()[name]}}
